@@ -115,7 +115,11 @@ fn child_hist(args: &Args) {
     let mut out = Out::new();
     let mut rng = Rng::derive(args.seed, 0xC02, args.shard);
     let fresh = Fresh::new();
-    let (arcs, ds) = mk_collectors(&mut rng, 4);
+    let (arcs, mut ds) = mk_collectors(&mut rng, 4);
+    // index 4 = `Dispatch::none()` installed as a scope: emissions inside it are discarded,
+    // whatever the global default is
+    const NONE_K: usize = 4;
+    ds.push(Dispatch::none());
     let mut workers: Vec<Workers> = vec![Workers::new(1)];
     let mut stacks: Vec<Vec<usize>> = vec![vec![]];
     let mut touched_before_global: Vec<bool> = vec![false];
@@ -156,8 +160,8 @@ fn child_hist(args: &Args) {
         let _ = any_scope;
         match rng.weighted(&w) {
             0 => {
-                let k = rng.usize(ds.len());
-                ops.push(format!("Open(t{t}, k{k})"));
+                let k = if rng.chance(1, 6) { NONE_K } else { rng.usize(4) };
+                ops.push(format!("Open(t{t}, {})", if k == NONE_K { "Dispatch::none()".to_string() } else { format!("k{k}") }));
                 let d = ds[k].clone();
                 if let Err(p) = workers[t].run(0, move || {
                     let g = dispatch::set_default(&d);
@@ -182,7 +186,7 @@ fn child_hist(args: &Args) {
             }
             k @ (2 | 3) => {
                 let panics = k == 3;
-                let c = rng.usize(ds.len());
+                let c = if rng.chance(1, 6) { NONE_K } else { rng.usize(4) };
                 let id = opid;
                 opid += 1;
                 let cs = fresh
@@ -221,7 +225,8 @@ fn child_hist(args: &Args) {
                 out.evals += 1;
                 out.count("emissions_scoped", 1);
                 out.distinct_str(&format!("scoped|{}|{}|{}|{panics}", stacks[t].len(), foreign_scope, global.is_some()));
-                if got != vec![(c, id)] {
+                let want_scoped: Vec<(usize, u64)> = if c == NONE_K { vec![] } else { vec![(c, id)] };
+                if got != want_scoped {
                     fail!(
                         "emission inside with_default did not go (only) to that scope's collector",
                         json!({"expected": format!("k{c}"), "received": format!("{got:?}")})
@@ -230,12 +235,12 @@ fn child_hist(args: &Args) {
                 if panics != unwound {
                     fail!("with_default closure panic was not propagated as-is", json!({"panics": panics, "unwound": unwound}));
                 }
-                if !panics && w != Some(c as u64 + 1) {
+                if !panics && w != (if c == NONE_K { None } else { Some(c as u64 + 1) }) {
                     fail!("get_default inside with_default is not that scope's collector", json!({"who": w, "expected": c + 1}));
                 }
             }
             4 => {
-                let k = rng.usize(ds.len());
+                let k = rng.usize(4);
                 ops.push(format!("SetGlobal(t{t}, k{k})"));
                 let d = ds[k].clone();
                 let r = match workers[t].run(0, move || dispatch::set_global_default(d).is_ok()) {
@@ -266,7 +271,14 @@ fn child_hist(args: &Args) {
                 let query = k == 7;
                 let id = opid;
                 opid += 1;
-                let expected: Option<usize> = stacks[t].last().copied().or(global);
+                let expected: Option<usize> = match stacks[t].last().copied() {
+                    Some(NONE_K) => None,
+                    Some(k) => Some(k),
+                    None => global,
+                };
+                if stacks[t].last() == Some(&NONE_K) {
+                    out.count("emissions_or_queries_inside_a_Dispatch_none_scope", 1);
+                }
                 let route = if !stacks[t].is_empty() {
                     "scoped"
                 } else if global.is_some() {
